@@ -157,6 +157,52 @@ def special_roots(base, rnd):
     return out
 
 
+def edge_check_fens(rnd, n):
+    """checks that arise at the rim of the board: a king on its back rank (any file, corners included) facing enemy pawns on the second
+    and third rank on the neighbouring files (a pawn check from the second rank now or one push away), or a rook / queen / bishop checker
+    on the far edge square of a line through the king; a few officers on both sides (so that null-move pruning is active)"""
+    out = []
+    for _ in range(n):
+        board = {}
+        kf = rnd.randrange(8)
+        board[kf] = "K"
+        mode = rnd.randrange(3)
+        if mode < 2:
+            for df in (-1, 1):
+                f = kf + df
+                if 0 <= f < 8 and rnd.random() < 0.7:
+                    board[8 * rnd.choice([1, 2, 2]) + f] = "p"
+            if rnd.random() < 0.5 and 16 + kf not in board:
+                board[16 + kf] = "p"
+        else:
+            line = rnd.choice([[kf + 8 * r for r in range(1, 8)], [f for f in range(8) if f != kf]])
+            far = line[-1] if line[0] // 8 else (line[0] if kf > 3 else line[-1])
+            board[far] = rnd.choice("rq")
+        free = [sq for sq in range(64) if sq not in board and sq // 8 >= 3]
+        rnd.shuffle(free)
+        board[free.pop()] = "k"
+        for _ in range(rnd.randrange(2, 5)):
+            board[free.pop()] = rnd.choice("RNBQ")
+        for _ in range(rnd.randrange(2, 5)):
+            board[free.pop()] = rnd.choice("rnbq")
+        rows = []
+        for r in range(7, -1, -1):
+            row, e = "", 0
+            for f in range(8):
+                x = board.get(8 * r + f)
+                if x is None:
+                    e += 1
+                else:
+                    row += (str(e) if e else "") + x
+                    e = 0
+            rows.append(row + (str(e) if e else ""))
+        fen = "/".join(rows) + " " + rnd.choice("wb") + " - - 0 1"
+        if rnd.random() < 0.5:
+            fen = flip_fen_colour(fen)
+        out.append(fen)
+    return out
+
+
 def key_twin_pairs(res, rnd, npat, cap):
     """pairs of positions of D with the same placement, turn, rights and ep file (hence the same Zobrist key) whose castling right on one
     wing refers to different rooks"""
@@ -222,6 +268,13 @@ def run_C03(res):
         for args, det in lims:
             cases.append((b, [Pos(b).hash], tt, args.split()[0], args, det, "key-twin-table"))
     res.count("key_twin_tables_holding_a_castling_move", ncastle)
+    # rim checks: back-rank kings under pawn fire from the second / third rank, checkers on far edge squares; searched deep enough for
+    # null-move pruning and the check extension to meet them inside the tree
+    rim = [l for l in run_driver(["feninw " + f for f in edge_check_fens(rnd, 400 * res.escalate if res.tier == "quick" else 6000)]) if l not in ("PANIC", "bad-op")]
+    okr = in_domain(rim)
+    rim = [p for p, o in zip(rim, okr) if o][: (60 if res.tier == "quick" else 1200)]
+    for p in rim:
+        cases.append((p, [Pos(p).hash], "1", "depth", "depth " + str(rnd.choice([3, 4, 4, 5] if res.tier == "quick" else [4, 5, 6])), True, "rim-check"))
     # roots without any legal move (mate / stalemate): the answer must be the null move
     sparse = [l for l in run_driver([f"gsparse {res.seed + 9} {3000 if res.tier == 'quick' else 60000} 0"]) if l and l != "bad-op"]
     nomoves = [p for p, m in zip(sparse, run_driver_par(["moves " + p for p in sparse])) if m == "-"]
